@@ -11,9 +11,11 @@ imgrun   (C05)  maps the memories of an image linked by ppci at their link
          contents before every call.  External functions of the image are
          reached through a jump table at a fixed address (JUMP_TABLE): the
          image's stub for external k is ``jmp [JUMP_TABLE + 8k]`` (bytes
-         ff 24 25 disp32, see ext_stub_bytes); the host side records the
-         argument, answers like vlib.refinterp.default_external and scrambles
-         every caller-saved register before returning.
+         ff 24 25 disp32, see ext_stub_bytes); the host side locates every
+         declared argument by the System V classification (6 integer
+         registers, 8 SSE registers, stack eightbytes), records them, answers
+         like vlib.refinterp.default_external and scrambles every caller-saved
+         register before returning.
          A call that dies (signal) or exceeds CPU_LIMIT seconds of *CPU* time
          (ITIMER_VIRTUAL) ends the process; run_image restarts after it.
 
@@ -110,10 +112,14 @@ __asm__(
 "  push rbp\n"
 "  mov rbp, rsp\n"
 "  and rsp, -16\n"
-"  sub rsp, 16\n"
-"  movq [rsp], xmm0\n"
-"  mov rsi, \\k\n"
-"  mov rdx, rsp\n"
+"  sub rsp, 144\n"
+"  mov [rsp + 16], rdi\n  mov [rsp + 24], rsi\n  mov [rsp + 32], rdx\n  mov [rsp + 40], rcx\n"
+"  mov [rsp + 48], r8\n  mov [rsp + 56], r9\n"
+"  movq [rsp + 64], xmm0\n  movq [rsp + 72], xmm1\n  movq [rsp + 80], xmm2\n  movq [rsp + 88], xmm3\n"
+"  movq [rsp + 96], xmm4\n  movq [rsp + 104], xmm5\n  movq [rsp + 112], xmm6\n  movq [rsp + 120], xmm7\n"
+"  mov rdi, \\k\n"
+"  mov rsi, rsp\n"
+"  lea rdx, [rbp + 16]\n"
 "  call ext_c\n"
 "  movq xmm0, [rsp + 8]\n"
 "  mov rsp, rbp\n"
@@ -144,7 +150,8 @@ __asm__(
 extern uint64_t ext_entries[NEXT];
 
 /* kinds: 0 none 1 i8 2 u8 3 i16 4 u16 5 i32 6 u32 7 i64 8 u64 9 f32 10 f64 11 ptr */
-struct extdecl { char name[64]; int argkind; int retkind; } exts[NEXT];
+#define MAXARGS 12
+struct extdecl { char name[64]; int nargs; int argkind[MAXARGS]; int retkind; } exts[NEXT];
 static int ext_count;
 static char trace[1 << 16];
 static size_t trace_len;
@@ -157,23 +164,36 @@ static uint64_t narrow(uint64_t v, int kind) {
     case 4: return (uint16_t)v;
     case 5: return (uint64_t)(int64_t)(int32_t)v;
     case 6: return (uint32_t)v;
+    case 9: return (uint32_t)v;
     default: return v;
   }
 }
 
-/* rdi = first integer argument as passed, rsi = external index, rdx -> {xmm0 in, xmm0 out};
-   returns rax.  Mirrors vlib.refinterp.default_external. */
-uint64_t ext_c(uint64_t a, uint64_t k, uint64_t *x) {
+/* k = external index; x -> {xmm0 result slot x[1]; rdi..r9 at x[2..7]; xmm0..7 at x[8..15]}; st -> stack arguments.
+   Arguments are located by the System V classification of the declared kinds (an unknown kind, 12, stops the
+   walk: what follows cannot be located).  Returns rax.  Mirrors vlib.refinterp.default_external. */
+uint64_t ext_c(uint64_t k, uint64_t *x, uint64_t *st) {
   struct extdecl *e = &exts[k % NEXT];
   uint64_t acc;
   const char *p;
+  int i, ni = 0, nf = 0, ns = 0;
   ext_count++;
-  a = narrow(a, e->argkind);
-  if (trace_len + 100 < sizeof trace)
-    trace_len += snprintf(trace + trace_len, 100, "T %s %016llx\n", e->name, (unsigned long long)a);
   acc = (uint64_t)ext_count * 7 + 3;
   for (p = e->name; *p; p++) acc = (acc * 31 + (unsigned char)*p) & 0xFFFF;
-  if (e->argkind >= 1 && e->argkind <= 8) acc = (acc * 17 + a) & 0xFFFF;
+  if (trace_len + 64 * (e->nargs + 2) < sizeof trace) {
+    trace_len += snprintf(trace + trace_len, 100, "T %s", e->name);
+    for (i = 0; i < e->nargs; i++) {
+      int kd = e->argkind[i];
+      uint64_t v;
+      if (kd == 12) { trace_len += snprintf(trace + trace_len, 40, " ?"); break; }
+      if (kd == 9 || kd == 10) v = nf < 8 ? x[8 + nf++] : st[ns++];
+      else v = ni < 6 ? x[2 + ni++] : st[ns++];
+      v = narrow(v, kd);
+      trace_len += snprintf(trace + trace_len, 40, " %016llx", (unsigned long long)v);
+      if (kd >= 1 && kd <= 8) acc = (acc * 17 + v) & 0xFFFF;
+    }
+    trace_len += snprintf(trace + trace_len, 4, "\n");
+  }
   x[1] = 0x7f7f7f7f7f7f7f7fULL;
   if (e->retkind == 0) return 0x0a0a0a0a0a0a0a0aULL;
   if (e->retkind == 11) return 0;
@@ -223,9 +243,12 @@ int main(int argc, char **argv) {
       p += n; d = (unsigned char *)addr;
       while (p[0] > ' ' && p[1] > ' ') { *d++ = (unsigned char)(hexval(p[0]) * 16 + hexval(p[1])); p += 2; }
     } else if (op == 'E') {
-      int k, a, r; char name[64];
-      if (sscanf(p, "%d %63s %d %d", &k, name, &a, &r) != 4) die("E");
-      strcpy(exts[k % NEXT].name, name); exts[k % NEXT].argkind = a; exts[k % NEXT].retkind = r;
+      int k, r, na, n = 0, j; char name[64];
+      if (sscanf(p, "%d %63s %d %d %n", &k, name, &r, &na, &n) < 4) die("E");
+      p += n;
+      if (na > MAXARGS) na = MAXARGS;
+      strcpy(exts[k % NEXT].name, name); exts[k % NEXT].retkind = r; exts[k % NEXT].nargs = na;
+      for (j = 0; j < na; j++) { int a; if (sscanf(p, "%d %n", &a, &n) < 1) die("Ea"); exts[k % NEXT].argkind[j] = a; p += n; }
     } else if (op == 'S') {
       for (i = 0; i < nregions; i++) if (regions[i].writable) {
         regions[i].save = malloc(regions[i].size);
@@ -278,7 +301,7 @@ IMGRUN_C = IMGRUN_C.replace('"@EXTQUADS@"', "\n".join('"  .quad ext_entry_%d\\n"
 IMGRUN_C = "#define NEXT %d\n" % MAX_EXTERNALS + IMGRUN_C
 
 KIND = {"none": 0, "i8": 1, "u8": 2, "i16": 3, "u16": 4, "i32": 5, "u32": 6, "i64": 7, "u64": 8, "f32": 9, "f64": 10,
-        "ptr": 11}
+        "ptr": 11, "blob": 12}
 
 _built = {}
 
@@ -351,15 +374,15 @@ def image_script(memories, externals, calls):
     """Text of an imgrun script.
 
     memories: [(addr, size, writable, executable, bytes)]
-    externals: [(name, argkind name, retkind name)] (index = jump-table slot)
+    externals: [(name, [argument kind names], result kind name)] (index = jump-table slot)
     calls: [{"id": int, "fn": addr, "ireg": [...], "freg": [...], "stack": [...], "dumps": [(addr, n)]}]"""
     out = []
     for addr, size, w, x, data in memories:
         out.append("M %x %x %d %d" % (addr, max(size, len(data), 1), 1 if w else 0, 1 if x else 0))
         for off in range(0, len(data), 2048):
             out.append("W %x %s" % (addr + off, bytes(data[off:off + 2048]).hex()))
-    for k, (name, ak, rk) in enumerate(externals):
-        out.append("E %d %s %d %d" % (k, name, KIND[ak], KIND[rk]))
+    for k, (name, aks, rk) in enumerate(externals):
+        out.append("E %d %s %d %d %s" % (k, name, KIND[rk], len(aks), " ".join(str(KIND[a]) for a in aks)))
     out.append("S")
     for c in calls:
         out.append("C %d %x %s %s %x %s" % (c["id"], c["fn"], " ".join("%x" % v for v in c["ireg"]),
@@ -374,7 +397,8 @@ def run_image(memories, externals, calls, tag="img", timeout=120):
     """Execute the calls; -> {id: result}.
 
     result: {"status": "ok", "rax", "rdx", "xmm0" (ints), "callee_saved_ok", "rsp_ok" (bools),
-             "trace": [(name, unsigned 64-bit arg)], "dumps": {addr: bytes}}
+             "trace": [(name, [unsigned 64-bit words of the located arguments, None from an unlocatable one on])],
+             "dumps": {addr: bytes}}
           | {"status": "signal", "signal": n}     the call killed the process
           | {"status": "cpu-limit"}               more than CPU_LIMIT s of CPU time inside the call
           | {"status": "harness", "reason": str}"""
@@ -406,8 +430,8 @@ def run_image(memories, externals, calls, tag="img", timeout=120):
                 trace = []
                 cur = None
             elif line.startswith("T "):
-                _, name, hx = line.split()
-                trace.append((name, int(hx, 16)))
+                parts = line.split()
+                trace.append((parts[1], [None if hx == "?" else int(hx, 16) for hx in parts[2:]]))
             elif line.startswith("R "):
                 parts = line.split()
                 cur = {"status": "ok", "rax": int(parts[2], 16), "rdx": int(parts[3], 16), "xmm0": int(parts[4], 16),
